@@ -954,16 +954,18 @@ def check_memory_space(chk, lib):
                 "M1", "the overflow buffer inherits the subgrid index and the direction of the full buffer", where(fn),
                 "tags copied: %s" % tags, function=fn["full"], construct="overflow tags")
     # both copy loops advance one shared source counter by exactly one per copied packet and stop at size_in
-    loops = [s for s in body if s.get("k") == "While"]
+    loops = [s for s in body if s.get("k") in ("While", "For") and
+             any(C.is_call(x) and x.get("op") == "[]" for x in C.walk_stmt(s["body"]))]
     n += 1
     okk = len(loops) == 2
     counter = None
     detail = "expected two copy loops, found %d" % len(loops)
     if okk:
         for lp in loops:
-            incs = [x for x in C.walk_stmt(lp["body"]) if x.get("k") == "Un" and x["op"] in ("pre++", "post++")]
-            reads = [x for x in C.walk_stmt(lp["body"]) if C.is_call(x) and x.get("op") == "[]" and x["a"]
-                     and C.strip_casts(x["a"][0]).get("k") == "Ref"]
+            where_inc = list(C.walk_stmt(lp["body"])) + (list(C.walk_stmt(lp["inc"])) if lp.get("k") == "For" and
+                                                          lp.get("inc") is not None else [])
+            incs = [x for x in where_inc if x.get("k") == "Un" and x["op"] in ("pre++", "post++")]
+            incs = [x for i2, x in enumerate(incs) if not any(x is y for y in incs[:i2])]
             keys = {C.ref_key(x["x"]) for x in incs}
             if len(incs) != 1:
                 okk = False
@@ -978,12 +980,58 @@ def check_memory_space(chk, lib):
             if not (keys & cnd_refs):
                 okk = False
                 detail = "loop condition does not bound the source counter"
+            # the packet read is buffer[counter]
+            reads = [x for x in C.walk_stmt(lp["body"]) if C.is_call(x) and x.get("op") == "[]" and x["a"] and
+                     C.ref_key(C.strip_casts(x["a"][0])) in keys]
+            if not reads:
+                okk = False
+                detail = "a copy loop does not read the packet at the source counter"
     chk.require(okk, "M1", "every packet of the source buffer is copied exactly once (one shared monotone counter)",
                 where(fn), detail, function=fn["full"], construct="copy counter")
-    rets = [s for s in body if s.get("k") == "Return"]
+    # what is returned: the input index while no overflow buffer was taken, the overflow buffer's index afterwards
+    g = C.CFG(fn)
+    in_idx = ("local", fn["params"][0]["id"], fn["params"][0]["n"])
+
+    def tr(node, st):
+        new = st
+        if node.kind in ("stmt", "decl") and node.ast.get("k") != "Abort":
+            pairs = []
+            if node.kind == "decl":
+                pairs = [(("local", d["id"], d["n"]), d["init"]) for d in node.ast["d"] if d.get("init") is not None]
+            elif node.ast.get("k") == "Bin" and node.ast["op"] == "=":
+                pairs = [(C.ref_key(node.ast["a"]), node.ast["b"])]
+            for tgt, rhs in pairs:
+                r0 = C.strip_casts(rhs)
+                if C.is_call(r0, name="get_free_buffer"):
+                    new = ("new", tgt)
+                elif st == ("old", None) and C.ref_key(r0) == in_idx and tgt is not None:
+                    new = ("old", tgt)
+                elif st[0] == "old" and st[1] is not None and tgt == st[1] and C.ref_key(r0) != in_idx:
+                    new = ("lost", None)
+        return [(None, new)]
+    ex = C.explore(g, ("old", None), tr)
+    okr = True
+    detr = ""
+    nret = 0
+    for node in g.nodes:
+        if node.kind != "return" or node.ast.get("x") is None:
+            continue
+        nret += 1
+        rk = C.ref_key(node.ast["x"])
+        for st in ex.at.get(node.id, ()):
+            if st[0] == "new" and rk != st[1]:
+                okr = False
+                detr = "after taking an overflow buffer the function returns `%s`, not the new buffer's index" % \
+                    C.pretty(node.ast["x"])
+            if st[0] == "old" and rk not in (in_idx, st[1]):
+                okr = False
+                detr = "without an overflow the function returns `%s`, not the input index" % C.pretty(node.ast["x"])
+            if st[0] == "lost":
+                okr = False
+                detr = "the index variable is overwritten by something else"
     n += 1
-    chk.require(len(rets) == 1, "M1", "add_photons has a single exit returning the active buffer index", where(fn),
-                "%d returns" % len(rets), function=fn["full"], construct="single exit")
+    chk.require(okr and nret >= 1, "M1", "add_photons returns the input index, or the overflow buffer's index once one was taken",
+                where(fn), detr or "no return", function=fn["full"], construct="single exit")
     chk.floor("M1", n, 4)
 
 
